@@ -413,3 +413,188 @@ Proof.
     + intros j Hj. rewrite I2 by (intros Hr; apply Hj; now right).
       apply G2. intros ->. apply Hj. now left.
 Qed.
+
+(* level 0: all L0 tables go into the base level through the drop filter *)
+Lemma run_l0_clean ps nkeep ls os ls' os' skip :
+  run_l0 ps nkeep ls os = (0, ls', os', skip) ->
+  (forall j, (1 <= j)%nat -> level_clean ps (nth j ls [])) ->
+  (forall j, level_clean ps (nth j ls' [])).
+Proof.
+  unfold run_l0. destruct (nth 0 ls []) as [|t0 l0] eqn:E0.
+  - intros [= <- <- <-] H j. destruct j as [|j]; [rewrite E0; intros ? []|apply H; lia].
+  - destruct os as [|[c out] os1]; [discriminate|].
+    cbv zeta. destruct ((pick_check ls c =? 0) || (pick_check ls c =? 2011)) eqn:Epc; cbn [negb];
+      [|intros [= Hp0 _ _ _]; rewrite Hp0 in Epc; discriminate].
+    destruct ((c_this c =? 0)%nat && negb (c_next c =? 0)%nat) eqn:E1; cbn [negb]; [|discriminate].
+    destruct (ids_eqb (ids_of (t0 :: l0)) (c_top c)) eqn:E2; cbn [negb]; [|discriminate].
+    destruct (prefixes_eqb (c_drop c) ps) eqn:E4; cbn [negb]; [|discriminate].
+    destruct (c_nkeep c =? nkeep) eqn:E5; cbn [negb]; [|discriminate].
+    destruct (apply_obs ls c out) as [code ls1] eqn:E6.
+    intros [= -> <- <- <-]. apply apply_obs_ok in E6. subst ls1.
+    apply andb_true_iff in E1. destruct E1 as [Et En]. apply Nat.eqb_eq in Et.
+    apply negb_true_iff, Nat.eqb_neq in En. apply ids_eqb_eq in E2. apply prefixes_eqb_eq in E4.
+    intros H j t Ht.
+    destruct (Nat.eq_dec j (c_next c)) as [->|Hjn].
+    + apply (apply_compaction_next_in ls c t) in Ht. destruct Ht as [[A _]|A].
+      * apply (H (c_next c)); [lia|exact A].
+      * rewrite <- E4. exact (output_tables_clean ls c t A).
+    + destruct (Nat.eq_dec j (c_this c)) as [->|Hjt].
+      * exfalso. apply (apply_compaction_this_in ls c t) in Ht; [|congruence].
+        destruct Ht as [A B]. rewrite Et, E0 in A. rewrite <- E2 in B.
+        rewrite (in_ids_of (t0 :: l0) t A) in B. discriminate.
+      * rewrite apply_compaction_other in Ht by assumption.
+        apply (H j); [lia|exact Ht].
+Qed.
+
+Lemma deep_levels_in ls j : In j (deep_levels ls) <-> (1 <= j < length ls)%nat.
+Proof. unfold deep_levels. rewrite <- in_rev, in_seq. lia. Qed.
+
+Lemma deep_levels_nodup ls : NoDup (deep_levels ls).
+Proof. unfold deep_levels. apply NoDup_rev, seq_NoDup. Qed.
+
+(* levels.go dropPrefixes, whole: if containsAnyPrefixes is complete on every level >= 1,
+   no entry carrying a drop prefix is left anywhere in the tree *)
+Theorem drop_levels_clean ps nkeep ls os ls' skip :
+  drop_levels ps nkeep ls os = (0, ls', skip) ->
+  (forall lvl, (1 <= lvl)%nat -> picker_complete ps (nth lvl ls [])) ->
+  forall lvl, level_clean ps (nth lvl ls' []).
+Proof.
+  unfold drop_levels.
+  destruct (run_levels ps nkeep (deep_levels ls) ls os) as [[code ls1] os1] eqn:E1.
+  destruct (code =? 0) eqn:Ec; cbn [negb]; [|intros [= ? ? ?]; subst; discriminate].
+  apply N.eqb_eq in Ec. subst code.
+  destruct (run_l0 ps nkeep ls1 os1) as [[[code0 ls2] os2] sk] eqn:E2.
+  destruct (code0 =? 0) eqn:Ec0; cbn [negb]; [|intros [= ? ? ?]; subst; discriminate].
+  apply N.eqb_eq in Ec0. subst code0.
+  destruct os2; [|discriminate]. intros [= <- <-] Hpc.
+  destruct (run_levels_clean ps nkeep (deep_levels ls) ls os ls1 os1 (deep_levels_nodup ls) E1) as [R1 R2].
+  { intros lvl Hl. apply Hpc. apply deep_levels_in in Hl. lia. }
+  apply (run_l0_clean _ _ _ _ _ _ _ E2). intros j Hj.
+  destruct (Nat.lt_ge_cases j (length ls)) as [Hlt|Hge].
+  - apply R1. apply deep_levels_in. lia.
+  - rewrite R2 by (rewrite deep_levels_in; lia). rewrite nth_overflow by lia. intros ? [].
+Qed.
+
+Lemma add_l0_deep ls t j : nth (S j) (add_l0 ls t) [] = nth (S j) ls [].
+Proof. destruct ls as [|l0 r]; cbn; [now destruct j|reflexivity]. Qed.
+
+Lemma flush_mems_deep ls ms ids ls0 rest j :
+  flush_mems ls ms ids = Some (ls0, rest) -> nth (S j) ls0 [] = nth (S j) ls [].
+Proof.
+  revert ls ids. induction ms as [|m r IH]; intros ls ids; cbn [flush_mems].
+  - now intros [= <- <-].
+  - destruct m as [|e m]; [apply IH|].
+    destruct ids as [|id ids']; [discriminate|]. intros H. apply IH in H. now rewrite add_l0_deep in H.
+Qed.
+
+Lemma mk_lsm_entries ls x :
+  In x (all_entries (mkLsm [] [] ls)) -> exists lvl t, In t (nth lvl ls []) /\ In x (t_ents t).
+Proof.
+  rewrite all_entries_in. cbn [l_mt l_imm l_levels]. intros [[]|[(s & [] & _)|(l & t & A & B & C)]].
+  destruct (In_nth ls l [] A) as (n & _ & Hn). exists n, t. rewrite Hn. auto.
+Qed.
+
+(* db.go DropPrefix, whole (C29_drop_prefix_removes under the hypothesis excluding F24):
+   after an accepted DropPrefix no stored entry carries one of the prefixes that had data *)
+Theorem drop_prefix_removes_partial s ps l0ids os s' tags :
+  drop_prefix s ps l0ids os = DOk s' tags ->
+  let fl := filter_prefixes (s_db s) (view_ts s) (s_now s) ps in
+  (fl = [] \/ forall lvl, (1 <= lvl)%nat -> picker_complete fl (nth lvl (l_levels (s_db s)) [])) ->
+  (fl = [] -> s' = s) /\
+  (fl <> [] -> forall e, In e (all_entries (s_db s')) ->
+                 has_any_prefix fl e = false /\ user_has_prefix fl (e_key e) = false).
+Proof.
+  intros H fl Hpc.
+  unfold drop_prefix in H. fold fl in H.
+  assert (Hnil: ps = [] -> fl = []) by (intros ->; reflexivity).
+  clearbody fl.
+  destruct ps as [|p0 ps'].
+  { rewrite (Hnil eq_refl). destruct l0ids, os; try discriminate. inversion H; subst.
+    split; [auto|intros Hne; congruence]. }
+  destruct fl as [|f0 fl'] eqn:Efl.
+  { destruct l0ids, os; try discriminate. inversion H; subst. split; [auto|intros Hne; congruence]. }
+  split; [discriminate|]. intros _.
+  destruct Hpc as [Hpc|Hpc]; [discriminate|].
+  destruct (flush_mems _ _ l0ids) as [[ls0 rest]|] eqn:Ef; [|discriminate].
+  destruct rest; [|discriminate].
+  destruct (drop_levels (f0 :: fl') (s_nkeep s) ls0 os) as [[code ls'] skip] eqn:Ed.
+  destruct (code =? 0) eqn:Ec; [|discriminate]. apply N.eqb_eq in Ec. subst code.
+  inversion H; subst s' tags. cbn [set_db_writes s_db].
+  intros e He. apply mk_lsm_entries in He. destruct He as (lvl & t & Ht & Hx).
+  assert (Hclean: has_any_prefix (f0 :: fl') e = false).
+  { eapply (drop_levels_clean _ _ _ _ _ _ Ed); eauto.
+    intros l Hl. destruct l as [|l]; [lia|]. rewrite (flush_mems_deep _ _ _ _ _ l Ef). apply Hpc. lia. }
+  split; auto.
+  destruct (user_has_prefix (f0 :: fl') (e_key e)) eqn:U; auto.
+  apply user_has_prefix_internal in U. congruence.
+Qed.
+
+(* the same statement without picker completeness is false: finding F24.  One table
+   [a@1, ab@2, b@3] at the last level, DropPrefix("ab"): containsPrefix compares "ab" with
+   the smallest INTERNAL key "a\xff..\xfe", finds it smaller and never looks inside *)
+Definition f24_table : table :=
+  mkT 2 [mkE [97] 1 0 0 0 [1]; mkE [97; 98] 2 0 0 0 [2]; mkE [98] 3 0 0 0 [3]].
+Definition f24_sys : sys :=
+  mkSys (mkLsm [] [] [[]; []; []; [f24_table]]) 4 [] [] false true 1 0 [] 0.
+
+Theorem drop_prefix_removes_refuted :
+  exists s ps s' tags,
+    drop_prefix s ps [] [] = DOk s' tags /\
+    filter_prefixes (s_db s) (view_ts s) (s_now s) ps = ps /\ ps <> [] /\
+    exists e, In e (all_entries (s_db s')) /\ user_has_prefix ps (e_key e) = true.
+Proof.
+  exists f24_sys, [[97; 98]]. eexists. eexists.
+  split; [vm_compute; reflexivity|].
+  split; [vm_compute; reflexivity|].
+  split; [discriminate|].
+  exists (mkE [97; 98] 2 0 0 0 [2]). split; [vm_compute; tauto|reflexivity].
+Qed.
+
+(* ======================= D. DropAll ======================= *)
+
+Lemma levels_srcs_empty lvl (ls : list (list table)) :
+  concat (levels_srcs lvl (map (fun _ => []) ls)) = [].
+Proof.
+  revert lvl. induction ls as [|l r IH]; intros lvl; cbn [map levels_srcs]; auto.
+  rewrite concat_app, IH, app_nil_r. destruct lvl; reflexivity.
+Qed.
+
+Theorem drop_all_empty s : all_entries (s_db (drop_all s)) = [].
+Proof. unfold drop_all, all_entries, all_srcs. cbn. apply levels_srcs_empty. Qed.
+
+Lemma level_cands_empty lvl (ls : list (list table)) k ts :
+  scan (level_cands lvl (map (fun _ => []) ls) k ts) ts None = None.
+Proof.
+  revert lvl. induction ls as [|l r IH]; intros lvl; cbn [map level_cands scan]; auto.
+  replace (level_get lvl [] k ts) with (@None entry) by (destruct lvl; reflexivity). apply IH.
+Qed.
+
+Theorem drop_all_reads_nothing s k ts : db_get (s_db (drop_all s)) k ts = None.
+Proof. unfold drop_all, db_get, cands, mem_cands. cbn. apply level_cands_empty. Qed.
+
+(* the oracle, the open transactions and the options are untouched: the state after a drop
+   is an ordinary state, and a write committed afterwards is read back *)
+Theorem drop_all_keeps_oracle s :
+  s_next (drop_all s) = s_next s /\ s_txns (drop_all s) = s_txns s /\
+  s_committed (drop_all s) = s_committed s /\ s_managed (drop_all s) = s_managed s.
+Proof. repeat split. Qed.
+
+Lemma level_cands_scan_none lvl (ls : list (list table)) k ts b :
+  scan (level_cands lvl (map (fun _ => []) ls) k ts) ts b = b.
+Proof.
+  revert lvl. induction ls as [|l r IH]; intros lvl; cbn [map level_cands scan]; auto.
+  replace (level_get lvl [] k ts) with (@None entry) by (destruct lvl; reflexivity). apply IH.
+Qed.
+
+Theorem write_after_drop_all s e ts :
+  e_ver e <= ts ->
+  db_get (apply_entries (s_db (drop_all s)) [e]) (e_key e) ts = Some e.
+Proof.
+  intros Hv. unfold drop_all, apply_entries, db_get, cands, mem_cands. cbn [s_db set_db_writes l_mt l_imm l_levels fold_left mt_put rev map app].
+  unfold src_get. cbn [seek_ge]. unfold key_le, key_order. rewrite lex_cmp_refl.
+  assert (Hc: match e_ver e ?= ts with Gt => false | _ => true end = true).
+  { destruct (e_ver e ?= ts) eqn:C; try reflexivity. rewrite N.compare_gt_iff in C. lia. }
+  rewrite Hc, bytes_eqb_refl. cbn [scan].
+  destruct (e_ver e =? ts); [reflexivity|]. cbn [better].
+  apply level_cands_scan_none.
+Qed.
